@@ -1,0 +1,20 @@
+//go:build verif
+
+package replicator
+
+import (
+	"github.com/nspcc-dev/neofs-sdk-go/object"
+	oid "github.com/nspcc-dev/neofs-sdk-go/object/id"
+)
+
+// Read-only accessors of [Task] for the model-based verification harness kept
+// outside the repository (build tag `verif`).
+
+// VerifCopiesNumber returns the number of copies requested by the task.
+func (t Task) VerifCopiesNumber() uint32 { return t.quantity }
+
+// VerifObjectAddress returns the address of the object to replicate.
+func (t Task) VerifObjectAddress() oid.Address { return t.addr }
+
+// VerifObject returns the object attached to the task, if any.
+func (t Task) VerifObject() *object.Object { return t.obj }
